@@ -123,6 +123,29 @@ def e2e_pair(q, p, rows):
     return routed, rr, rb, sql_r
 
 
+def exercise_shared_tables():
+    """run the other code that reads the granularity tables (recommender over a query log with known and unknown granularity names,
+    definition generation, the matcher's scoring through a routed compile) -- the compatibility function must be the same function
+    of its two arguments afterwards (the translation treats the module-level hierarchy as a constant)"""
+    from sidemantic.core.preagg_recommender import PreAggregationRecommender
+    log = []
+    for g in ["minute", "day", "fortnight", "second", "month,minute", "week"]:
+        log += ["select 1 -- sidemantic: models=ev metrics=ev.total dimensions=ev.ts granularities=%s" % g] * 12
+    rec = PreAggregationRecommender(min_query_count=1)
+    rec.parse_query_log(log)
+    for r in rec.get_recommendations():
+        try:
+            rec.generate_preagg_definition(r)
+        except Exception:
+            pass
+    rec.get_summary()
+    try:
+        e2e_pair("month", "day", [(1704067200000000, 5), (1706745600000000, 7)])
+    except Exception:
+        pass
+    return "PreAggregationRecommender(parse_query_log with granularities minute/day/fortnight/second/week, get_recommendations, generate_preagg_definition, get_summary); routed compile"
+
+
 def run(c):
     c.trusted += ["translator/py2v_typed.py + gen_grancompat.py (fail-closed; output re-validated against the Python function on the 8x8 name domain each run)",
                   "extraction of Calendar.trunc with ExtrOcamlBasic only; Extract/zio.ml + cal_driver.ml (I/O conversions)",
@@ -155,6 +178,22 @@ def run(c):
             evals += len(pairs)
         except RuntimeError as e:
             c.obligation("translator_validation", False, "correspondence", str(e))
+    # 3b. the function is the same function after the other readers of the granularity tables have run
+    hnames = names + ["minute"]
+    hpairs = [(q, p) for q in hnames for p in hnames]
+    before = [py_compatible(q, p) for q, p in hpairs]
+    try:
+        what = exercise_shared_tables()
+        after = [py_compatible(q, p) for q, p in hpairs]
+        changed = [(hpairs[i], before[i], after[i]) for i in range(len(hpairs)) if before[i] != after[i]]
+        c.obligation("history independence: _is_granularity_compatible unchanged on %d name pairs after %s" % (len(hpairs), what), not changed, "correspondence", repr(changed[:6]))
+        for (q, p), b, a in changed[:3]:
+            if a and not b:
+                c.violation("after the recommender has run, a query at %r is accepted for a %r rollup (refused on a fresh process)" % (q, p),
+                            {"kind": "history", "q": q, "p": p, "history": what, "fresh": b, "after": a})
+        evals += 2 * len(hpairs)
+    except Exception as e:
+        c.obligation("history independence of _is_granularity_compatible", False, "correspondence", repr(e)[-600:])
     # 4. calendar tie
     n_pts, n_distinct = calendar_tie(c, 3000 if c.tier == "quick" else 60000)
     evals += n_pts
@@ -216,6 +255,12 @@ def replay(path):
         print("routed:", routed, "rows equal:", rr == rb)
         print(sql)
         return 1 if routed and rr != rb else 0
+    if r.get("kind") == "history":
+        b = py_compatible(r["q"], r["p"])
+        exercise_shared_tables()
+        a = py_compatible(r["q"], r["p"])
+        print("fresh:", b, "after the history:", a)
+        return 1 if a != b else 0
     if r.get("kind") == "function":
         print("compatible:", py_compatible(r["q"], r["p"]))
         return 1 if py_compatible(r["q"], r["p"]) else 0
